@@ -14,10 +14,11 @@ pub struct Ctx { pub tier: String, pub seed: u64, pub driver: Driver, pub thorou
 
 fn main() {
     let args: Vec<String> = std::env::args().collect();
-    if args.len() < 6 && !(args.len() >= 3 && args[1] == "replay-step") {
+    if args.len() < 6 && !(args.len() >= 3 && (args[1] == "replay-step" || args[1] == "print-ast")) {
         eprintln!("usage: aquaharness <property> <quick|thorough> <seed> <driver> <report.json> [replay-file]");
         std::process::exit(2);
     }
+    if args[1] == "print-ast" { props::probe::print_ast(&std::fs::read_to_string(&args[2]).unwrap()); return; }
     if args[1] == "replay-step" {
         let v: serde_json::Value = serde_json::from_str(&std::fs::read_to_string(&args[2]).unwrap()).unwrap();
         let idx: usize = args.get(3).and_then(|s| s.parse().ok()).unwrap_or(0);
@@ -38,6 +39,7 @@ fn main() {
         "C21" => props::c21::run(&mut ctx, &mut report),
         "C22" => props::c22::run(&mut ctx, &mut report),
         "C02" | "C03" | "C04" | "C05" | "C06" | "C07" | "C09" | "C10" | "C19" | "C20" => props::hist::run_property(&prop, &mut ctx, &mut report),
+        "execcorr" => props::execcorr::run(&mut ctx, &mut report),
         "traceops" => props::traceops::run(&mut ctx, &mut report),
         "probe" => props::probe::run(&mut ctx, &mut report),
         _ => { eprintln!("unknown property {prop}"); std::process::exit(2); }
